@@ -32,8 +32,9 @@ import common
 from common import Ctx, Outcome
 
 import c11_barrier as barrier
+import c11_factories as factories
 
-DRIVERS = ["Reads"]
+DRIVERS = ["Reads", "Factories"]
 TABLES = True
 LEVEL = "proof"
 RULE = ("operations are enumerated from the live model: (object, public attribute from dir()) pairs, "
@@ -699,6 +700,27 @@ def run_save_level(ctx: Ctx, out: Outcome, label: str, size: str) -> None:
                  {"kind": "save-level", "model": label, "files": bad})
     shutil.rmtree(dir_a, ignore_errors=True)
     shutil.rmtree(dir_b, ignore_errors=True)
+
+
+# ------------------------------------------------------------------ parse correspondence (cases)
+
+
+def collect_parse_cases(ctx: Ctx, model, label: str, size: str, acc: list) -> None:
+    """Export diagrams (all in thorough, a seeded sample in quick) and observe the implementation on them."""
+    dgs = list(model.diagrams)
+    if not dgs:
+        return
+    if not ctx.thorough:
+        dgs = ctx.rng.sample(dgs, min(len(dgs), 1 if size == "small" else 3))
+    for d in dgs:
+        d.invalidate_cache()
+        try:
+            rq = factories.export_diagram(model._loader, d._element)
+        except Exception as e:  # noqa: BLE001
+            acc.append((label, d.uuid, None, {"export_error": repr(e)}))
+            continue
+        obs = factories.observe(model._loader, d._element)
+        acc.append((label, d.uuid, rq, obs))
 
 
 # ------------------------------------------------------------------ write barrier + effect-table tie
@@ -1443,6 +1465,7 @@ def run(ctx: Ctx) -> Outcome:
     per_model = {}
     fcases: list[dict] = []
     store_cases: list = []
+    parse_cases: list = []
     sel = MODELS
     only = os.environ.get("C11_MODELS")
     if only:
@@ -1470,6 +1493,7 @@ def run(ctx: Ctx) -> Outcome:
             sc = store_case(ctx, model, label)
             if sc:
                 store_cases.append((label, sc))
+        timed("parse-cases", collect_parse_cases, ctx, model, label, size, parse_cases)
         timed("pvmt", run_pvmt, ctx, out, label, model)
         del model
         if size == "small" or ctx.thorough or label == "mm52":
@@ -1478,6 +1502,7 @@ def run(ctx: Ctx) -> Outcome:
             timed("barrier", run_barrier, ctx, out, label, size)
         if label in ("parser", "pvmt", "libproj") or ctx.thorough or label == edited_big:
             timed("edited", run_edited, ctx, out, label, size)
+    timed("cache", run_cache, ctx, out)
     out.extra["seconds_by_phase"] = phase
     # synthetic-free correspondence: factories
     reqs = [factory_request(c) for c in fcases]
@@ -1510,6 +1535,30 @@ def run(ctx: Ctx) -> Outcome:
                 if mv != w:
                     out.disagree("store.run", {"model": label, "op": o}, w, mv)
             out.traces_validated += 1
+    if os.environ.get("VERIF_NO_MODEL") != "1" and parse_cases:
+        t0 = time.time()
+        answers = common.model([rq for _l, _d, rq, _o in parse_cases] + [{"op": "table.info"}], driver="Factories")
+        for (label, duid, rq, obs), a in zip(parse_cases, answers):
+            out.case(("parse", label, duid), None, True)
+            if "ok" not in a:
+                out.disagree("parse", {"model": label, "diagram": duid}, "n/a", a)
+                continue
+            r = a["ok"]
+            if r["changed"] or r["writes"]:
+                out.disagree("parse", {"model": label, "diagram": duid}, "tree unchanged", f"model run changed the tree / issued {r['writes']} writes")
+            out.hit("parse:model-requests", int(r["requests"]))
+            for k, v in r["by_kind"].items():
+                out.hit("parse:req:" + k, int(v))
+            factories.compare(out, label, duid, obs, factories.canon_model(r["results"]))
+            out.traces_validated += 1
+        info = answers[-1].get("ok", {})
+        static_effects()
+        want = sorted((t_["key"], fid.lstrip("?")) for t_ in _ENV["static_tables"] for _r, fid in t_["targets"])
+        got = sorted((k, n) for k, n, _m in info.get("dispatch", []))
+        if want != got:
+            out.disagree("table.dump", {"what": "dispatch rows re-read from the generated Lean table"}, want[:5], got[:5])
+        out.extra["parse"] = {"diagrams": len(parse_cases), "seconds_model": round(time.time() - t0, 2),
+                              "nodes": sum(len(rq["nodes"]) for _l, _d, rq, _o in parse_cases)}
     out.extra["per_model"] = per_model
     if "effects_functions_exercised" in out.extra:
         ex_f = sorted(out.extra["effects_functions_exercised"])
@@ -1521,6 +1570,111 @@ def run(ctx: Ctx) -> Outcome:
     out.extra["factory_cases"] = len(fcases)
     out.extra["input_distribution"] = {k: v for k, v in sorted(out.branches.items()) if k.startswith("op:")}
     return out
+
+
+# ------------------------------------------------------------------ render cache (state machine) correspondence
+
+CACHE_PARAMS = [{}, {"sorted_exchangedItems": True}, {"a": 1}, {"a": 2}, {"a": 1, "b": "x"}]
+
+
+def canon_params(p: dict) -> list:
+    return [[k, repr(v)] for k, v in sorted(p.items())]
+
+
+def cache_cases(ctx: Ctx) -> list[dict]:
+    """Seeded histories of render(None, **p) / invalidate_cache() on one diagram object; some parameter sets make the
+    parser fail. Includes single-parameter histories (the domain of the `_partial` theorem) and mixed ones."""
+    rng = ctx.rng
+    cases = []
+    for i in range(ctx.pick(60, 600)):
+        single = i % 3 == 0
+        pool = [rng.choice(CACHE_PARAMS)] if single else rng.sample(CACHE_PARAMS, rng.randint(2, len(CACHE_PARAMS)))
+        fails = [p for p in pool if rng.random() < 0.25]
+        ops = []
+        for _ in range(rng.randint(1, 9)):
+            if rng.random() < 0.2:
+                ops.append({"o": "invalidate"})
+            else:
+                ops.append({"o": "render", "p": rng.choice(pool)})
+        cases.append({"single": single, "fails": fails, "ops": ops})
+    return cases
+
+
+def cache_impl(case: dict) -> tuple[list, int]:
+    """Run one history on the real `AbstractDiagram` machinery with a stub `_create_diagram`; returns the answers and how
+    many renders returned a picture made with other parameters than the ones asked for."""
+    from capellambse import diagram
+    from capellambse.model import diagram as mdiagram
+
+    fails = [canon_params(p) for p in case["fails"]]
+
+    class Stub(mdiagram.AbstractDiagram):
+        uuid = "stub"
+        name = "stub"
+        target = None
+        filters = set()
+
+        def _create_diagram(self, params):
+            self.calls += 1
+            cp = canon_params(params)
+            if cp in fails:
+                raise ValueError(cp)
+            d = diagram.Diagram("pic")
+            d.made_with = cp
+            return d
+
+    st = Stub(None)
+    st.calls = 0
+    outs, stale = [], 0
+    for op in case["ops"]:
+        if op["o"] == "invalidate":
+            st.invalidate_cache()
+            outs.append(None)
+            continue
+        before = st.calls
+        try:
+            r = st.render(None, **op["p"])
+            ans = {"fresh": st.calls > before, "err": False, "with": r.made_with}
+        except ValueError as e:
+            ans = {"fresh": st.calls > before, "err": True, "with": e.args[0]}
+        if ans["with"] != canon_params(op["p"]):
+            stale += 1
+        outs.append(ans)
+    return outs, stale
+
+
+def run_cache(ctx: Ctx, out: Outcome) -> None:
+    cases = cache_cases(ctx)
+    impl = [cache_impl(c) for c in cases]
+    reqs = [{"op": "cache.run", "variant": "coded", "fails": [canon_params(p) for p in c["fails"]],
+             "ops": [{"o": o["o"], "p": canon_params(o["p"])} if o["o"] == "render" else {"o": "invalidate"} for o in c["ops"]]}
+            for c in cases]
+    answers = common.model(reqs, driver="Factories") if os.environ.get("VERIF_NO_MODEL") != "1" else []
+    stale_total = 0
+    for c, (iv, stale), a in zip(cases, impl, answers):
+        out.case(("cache", common.sha(c)), {"cache": c, "impl": iv} if stale and len(out.samples) < 6 else None, True)
+        out.hit("cache:" + ("single-parameter" if c["single"] else "mixed-parameters"))
+        for o, x in zip(c["ops"], iv):
+            if x is not None:
+                out.hit("cache:render:" + ("error" if x["err"] else "ok") + (":fresh" if x["fresh"] else ":cached"))
+        mv = a.get("ok", a)
+        if iv != mv:
+            out.disagree("cache", c, iv, mv)
+        if stale:
+            stale_total += stale
+            out.hit("cache:served-picture-of-other-parameters", stale)
+            if c["single"]:   # inside the domain of render_cache_transparent_partial this must not happen
+                out.disagree("cache", c, "stale answer on a single-parameter history", "transparent (theorem)")
+        out.traces_validated += 1
+    # the witness of render_cache_transparent_full_fails, replayed on the implementation
+    w, stale = cache_impl({"fails": [], "ops": [{"o": "render", "p": {"a": 1}}, {"o": "render", "p": {}}]})
+    out.extra["render_cache"] = {
+        "histories": len(cases), "renders_answered_with_other_parameters": stale_total,
+        "witness_render(a=1);render()": w, "witness_reproduces_on_implementation": bool(stale),
+        "note": "AbstractDiagram._last_render_params is never assigned after __init__: outside C11's statement (nothing is "
+                "written, nothing raises); recorded, not a finding",
+    }
+    out.hit("cache:witness-" + ("reproduces" if stale else "no-longer-reproduces"))
 
 
 # ------------------------------------------------------------------ PVMT correspondence (model of ManagedGroup.apply)
